@@ -1,3 +1,55 @@
-import PGA.Spec.SI
+import PGA.Proofs.UnitsTables
+/-!
+# C10 — unit expressions evaluate to the exact SI value and dimension
+-/
 namespace PGA.Units
+open PGA.SI
+
+/-! ## Table obligations (decided by the kernel over the regenerated `PGA.Gen.Units`) -/
+
+/-- Table obligation: evaluating `builtin.py`'s definitional strings through the model's own parser, in order,
+succeeds (no definition is unparsable, refers to a later unit, or divides by zero). -/
+theorem C10_tab_db_built : ∃ c, buildCfg = .ok c ∧ liveCfg = c := by
+  unfold liveCfg
+  have h : (match buildCfg with | .ok _ => true | .error _ => false) = true := by decide +kernel
+  split
+  · next c hc => exact ⟨c, hc, rfl⟩
+  · next e he => rw [he] at h; exact absurd h (by simp)
+
+/-- Table obligation: the model's database has exactly the keys of the live `units_db` (same order), every key has
+an entry in the hand-written SI reference, and every reference unit is in the database. -/
+theorem C10_tab_names : checkNames liveCfg = true := by decide +kernel
+
+/-- Table obligation: the live prefix table is the SI prefix table: each SI prefix is present with value `10^k`
+exactly, and there is no other prefix. -/
+theorem C10_tab_prefixes :
+    (∀ pk ∈ SI.prefixes, liveCfg.prefixes.find pk.1 = some ((10 : Rat) ^ pk.2)) ∧
+    (∀ pv ∈ liveCfg.prefixes, ∃ pk ∈ SI.prefixes, pk.1 = pv.1) :=
+  checkPrefixes_sound (by decide +kernel)
+
+theorem checkAllUnits_live : checkAllUnits liveCfg = true := by decide +kernel
+
+/-- Table obligation **T1**: for every unit `r` of the SI reference and every SI prefix `p = 10^k` (and no prefix,
+`k = 0`), unless `p ++ r.name` is itself a unit name, `lookup (p ++ r.name)` is an exact magnitude within the entry's
+tolerance of `10^k · r.value` (tolerance 0: equal) with exactly the reference dimension. -/
+theorem C10_tab_units : ∀ r ∈ SI.units, ∀ pk ∈ allPrefixes, find (pk.1 ++ r.name) = none →
+    ResolvesTo liveCfg (pk.1 ++ r.name) ((10 : Rat) ^ pk.2) r :=
+  fun r hr pk hpk => ((checkAllUnits_sound checkAllUnits_live) r hr pk hpk).1
+
+/-- Table obligation: the prefixed names that are themselves unit names are exactly `min` (minute, not milli-inch)
+and `ft` (foot, not femto-tonne), and each resolves to that unit. -/
+theorem C10_tab_collisions :
+    collisions = [(['m'], ['i', 'n'], ['m', 'i', 'n']), (['f'], ['t'], ['f', 't'])] ∧
+    ∀ r ∈ SI.units, ∀ pk ∈ allPrefixes, ∀ r', find (pk.1 ++ r.name) = some r' →
+      ResolvesTo liveCfg (pk.1 ++ r.name) 1 r' :=
+  ⟨by decide +kernel, fun r hr pk hpk => ((checkAllUnits_sound checkAllUnits_live) r hr pk hpk).2⟩
+
+/-- Table obligation: `Consts.GAS_CONSTANT` is the molar gas constant: J/(mol·K) and within 10⁻⁵ of 8.31446261815324. -/
+theorem C10_tab_gas_constant : checkGasConstant = true := by decide +kernel
+
+/-- Table obligation: every database entry is an exact positive magnitude with integer exponents, every prefix is
+positive and the snapping threshold is strictly between 0 and 1/2 (hypotheses of the general theorems, discharged
+for the live tables). -/
+theorem C10_tab_db_integral : checkIntegral liveCfg = true := by decide +kernel
+
 end PGA.Units
